@@ -28,6 +28,12 @@ def run(tier, seed):
     beh = uniq
     if len(beh) < num // 2:
         raise vlib.ToolError("generator produced only %d schedules" % len(beh))
+    # Check-In counter: walks across the 32-bit wrap (boundaries within one epoch of the top), restarts after every few steps
+    step = [{"op": "SendBatch"}, {"op": "AdvanceCounter"}]
+    for start in (31, 29, 27, 24, 20, 17):
+        for k in (3, 7, 12, 18):
+            beh.append({"kind": "chk", "start": start, "ops": [{"op": "Boot"}, {"op": "PersistCounter"}] + step * k + [{"op": "Crash"}, {"op": "Boot"}, {"op": "PersistCounter"}] + step * 6
+                                                            + [{"op": "Crash"}, {"op": "Boot"}, {"op": "PersistCounter"}] + step * 3})
     bpath = os.path.join(wd, "behaviours.ndjson")
     vlib.write_ndjson(bpath, beh)
     tbase = os.path.join(wd, "trace")
@@ -71,6 +77,11 @@ def run(tier, seed):
     for start in (-1, 0, 5, 29, 30, 31):
         e2e.append({"start": start, "ops": [{"op": "Boot"}, {"op": "Send", "n": 1003}, {"op": "Crash"}, {"op": "Boot"}, {"op": "Send", "n": 2}, {"op": "Crash"},
                                              {"op": "Boot"}, {"op": "Send", "n": 2100}, {"op": "Crash"}, {"op": "Boot"}, {"op": "Send", "n": 1}]})
+    # the reservation that moves the boundary is refused for lack of an exchange slot (the group session's table is held
+    # full); the next ones succeed; then a restart
+    for start, laps in ((-1, 1), (5, 1), (30, 1), (-1, 2)):
+        e2e.append({"start": start, "ops": [{"op": "Boot"}, {"op": "SendToBoundary", "laps": laps}, {"op": "Hold"}, {"op": "Try"}, {"op": "Try"}, {"op": "Release"}, {"op": "Send", "n": 3},
+                                             {"op": "Crash"}, {"op": "Boot"}, {"op": "Send", "n": 3}, {"op": "Crash"}, {"op": "Boot"}, {"op": "Send", "n": 1}]})
     epath = os.path.join(wd, "behaviours_e2e.ndjson")
     vlib.write_ndjson(epath, e2e)
     etrace = os.path.join(wd, "trace_e2e.grp.ndjson")
